@@ -66,6 +66,8 @@ def gen_access(ctx):
     cases = []
     shapes = [[6], [0], [3, 4], [2, 3, 2], [2, 1, 2, 2], [0, 3], [3, 0], [2, 0, 2]]
     idxs = AXIS + [['ia', [0, 0, 1]], ['ia', [-1]], ['ia', [7]], ['bm', [True, False]], ['l', [1, 0]], ['f', 1.5], ['str'], ['huge'],
+                   ['npi', 'int64', 1], ['npi', 'uint8', 0], ['npi', 'int16', -1], ['npi', 'uint64', 1], ['a0', -1], ['b', True],
+                   ['b', False, 'np'], ['rng', [0, 2]], ['u8a', [1, 0]], ['t', ['npi', 'int32', 0], ['s', None, None, None]],
                    ['t', 0, 0, 0, 0, 0], ['t', ['s', None, None, None], 0], ['t', 'E', -1], ['t', 'N', ['s', None, None, -1]],
                    ['t', ['ia', [0, 1]], ['ia', [1, 0]]]]
     vals = [dict(kind='scalar', value=7), dict(kind='scalar', value=2.5), dict(kind='list', value=[1, 2]),
